@@ -32,7 +32,7 @@ func runC19(c *Ctx) {
 		"(reply-only) both echoNotify calls in Parse are control dependent on the echo-reply type constant of the matching IP protocol (0 under protocol 1, 129 under protocol 58) and on a nil ICMPEcho.IsValid, with the argument " +
 		"EchoID() of that echo; (id-critical-section) the read and increment of the id counter and the registration happen with the table lock held; (result) a nil return is control dependent on msg.msgRecv, which is only " +
 		"set by echoNotify. Not decided: timing, wrap-around of the 16-bit id, IPv4/IPv6 id-space sharing."
-	r.Rule("waiter-pairing", "registered waiter is removed on every exit", 2)
+	r.Rule("waiter-pairing", "registered waiter is removed on every exit; registration precedes the send", 4)
 	r.Rule("single-wakeup", "wakeup channel closed once, under the lock, entry deleted before unlock", 2)
 	r.Rule("reply-only", "echoNotify only for valid echo replies of the matching protocol, with that reply's id", 2)
 	r.Rule("id-critical-section", "id allocation and registration in one critical section", 4)
@@ -99,6 +99,21 @@ func runC19(c *Ctx) {
 					r.Add(core.Obligation{Rule: "result", Key: "result " + name + " nil return", Func: name, Pos: c.P.Pos(core.PosOf(t)), Status: st,
 						Basis: "nil return control dependent on: " + guardTexts(gs), Detail: "a nil (success) return is not control dependent on msg.msgRecv: " + guardTexts(gs)})
 				}
+			}
+		})
+		// the waiter is registered before the request can be answered: the registration dominates the send
+		core.EachInstr(fn, func(i ssa.Instruction) {
+			mu, ok := i.(*ssa.MapUpdate)
+			if !ok || !strings.Contains(norm(mu.Map), "icmpTable.table") {
+				return
+			}
+			for _, s := range callsIn(fn, nameIs("ICMP4SendEchoRequest", "ICMP6SendEchoRequest")) {
+				st := core.Proved
+				if !core.InstrDominates(i, s.(ssa.Instruction)) {
+					st = core.Violated
+				}
+				r.Add(core.Obligation{Rule: "waiter-pairing", Key: "waiter-pairing " + name + " registers before sending", Func: name, Pos: c.P.Pos(core.PosOf(s.(ssa.Instruction))), Status: st,
+					Basis: "table[id] = &msg dominates the echo request", Detail: "the echo request is sent before the waiter is registered: a reply parsed in between finds no waiter and the ping times out although its reply arrived"})
 			}
 		})
 		if n == 0 {
